@@ -145,7 +145,45 @@ def run(tier, seed, replay):
                 tag += 1
                 if rng.random() < 0.15:
                     ops.append(('R', c * g.cs, g.cs))
-        if k % 3 == 2:
+        if k % 8 == 4:
+            # COW from a backing image with SMALLER clusters: one COW reads several backing clusters; faults hit reads of
+            # the backing file (file index 1)
+            import foreign, qimg
+            cbT, cbB = 12, rng.choice([9, 10])
+            nT = rng.choice([6, 10])
+            csT, csB = 1 << cbT, 1 << cbB
+            bclusters = {gc: ('data', foreign.cluster_bytes(rng, csB, 'blocks')) for gc in range((nT * csT) // csB) if rng.random() < 0.9}
+            back = qimg.ImageDesc(version=3, cluster_bits=cbB, refcount_order=4, size=nT * csT, clusters=bclusters)
+            tclusters = {gc: ('data', foreign.cluster_bytes(rng, csT, 'blocks')) for gc in rng.sample(range(nT), 2)}
+            top = qimg.ImageDesc(version=3, cluster_bits=cbT, refcount_order=4, size=nT * csT, clusters=tclusters, backing_file='back.img')
+            try:
+                paths, _ = foreign.write_images(d, 'c17img_%d' % k, [top, back])
+                g = hist.Geom(cbT, 4, top.size, 9, (9, 4 << 9), (9, 4 << 9), punch=1)
+                init = hist.Flat(top.size)
+                for b in range(top.size // 512):
+                    gcT = (b * 512) // csT
+                    if gcT in tclusters:
+                        data = tclusters[gcT][1][(b * 512) % csT:(b * 512) % csT + 512]
+                    else:
+                        gcB = (b * 512) // csB
+                        data = bclusters[gcB][1][(b * 512) % csB:(b * 512) % csB + 512] if gcB in bclusters else bytes(512)
+                    v = foreign.blockval(data)
+                    if v != 'w0':
+                        init.blk[b] = v
+                init.alloc = set(tclusters)
+                init.backing_faults = True
+                ops = []
+                tag = 1
+                for gcT in rng.sample([x for x in range(nT) if x not in tclusters], 3):
+                    ops.append(('W', gcT * csT + 512 * rng.randrange(0, csT // 512 - 2), rng.choice([512, 1024]), tag))
+                    tag += 1
+                    if rng.random() < 0.5:
+                        ops.append(('R', gcT * csT, csT))
+                ops.append(('F',))
+                image = 'image file %s\nimage file %s' % (paths[0], paths[1])
+            except ValueError:
+                image, init = None, None
+        if k % 3 == 2 and k % 8 != 4:
             # independently built image: compressed / zero / preallocated clusters, free clusters with stale content
             import foreign
             for _ in range(8):
@@ -201,6 +239,14 @@ def run(tier, seed, replay):
                 text, sweeps = build_variant(cid, g, ops, fl, rng, image)
                 variants.append((cid, text))
                 meta[cid] = (g, ops, sweeps, 'faults: ' + '; '.join(fl), init)
+        if image is not None and getattr(init, 'backing_faults', False):
+            # the n-th read of the backing file fails
+            for kk in range(6 if tier == 'quick' else 24):
+                cid = 'c17_%d_br%d' % (k, kk)
+                fl = ['fault R 0 %d %d 1' % (1 << 40, kk)]
+                text, sweeps = build_variant(cid, g, ops, fl, rng, image)
+                variants.append((cid, text))
+                meta[cid] = (g, ops, sweeps, 'faults: ' + '; '.join(fl) + ' (backing file)', init)
         if image is not None:
             # zeroing of a new cluster fails twice (punch, then the zero-write fallback): stale host bytes must not show up
             for kk in range(3 if tier == 'quick' else 6):
